@@ -155,6 +155,11 @@ type GenOptions struct {
 	QuiesceEvery int
 	NoTLS        bool
 	OnlyNS       string
+	// Sparse: larger name pools and one host per ingress, so that the tracker's dirty
+	// closures stay small (a missing tracking link shows only when no other path exists)
+	Sparse bool
+	// InitialGlobal is merged into the initial global ConfigMap
+	InitialGlobal map[string]string
 	// Avoid: generator constraints that keep the history away from the trigger
 	// of a known, recorded finding (see known_findings.json); each flag is tied
 	// to one finding, which is still demonstrated by its own replay file.
@@ -174,6 +179,7 @@ var defaultWeights = map[string]int{
 }
 
 type gen struct {
+	curPrefSvc   string
 	defBackendOK map[string]bool
 	rng *rand.Rand
 	opt GenOptions
@@ -247,7 +253,7 @@ func (g *gen) keys(kind string) []string { return sortedKeys(g.objs[kind]) }
 // sanitize enforces the Avoid constraints on an ingress about to be emitted.
 func (g *gen) sanitize(o client.Object) {
 	ing, ok := o.(*networking.Ingress)
-	if !ok || len(g.opt.Avoid) == 0 {
+	if !ok {
 		return
 	}
 	key := objKey(ing)
@@ -277,6 +283,22 @@ func (g *gen) sanitize(o client.Object) {
 				v = "^claim-" + ing.Namespace + "-" + ing.Name + "[0-9]+\\.local$"
 			}
 			ing.Annotations[annPrefix+k] = v
+		}
+	}
+	if _, tcp := ing.Annotations[annPrefix+"tcp-service-port"]; tcp {
+		// tcp services only accept the root path
+		for i := range ing.Spec.Rules {
+			if ing.Spec.Rules[i].HTTP == nil {
+				continue
+			}
+			ps := ing.Spec.Rules[i].HTTP.Paths
+			if len(ps) > 1 {
+				ps = ps[:1]
+			}
+			for j := range ps {
+				ps[j].Path = "/"
+			}
+			ing.Spec.Rules[i].HTTP.Paths = ps
 		}
 	}
 	if g.opt.Avoid["no_dup_paths"] {
@@ -358,7 +380,14 @@ var svcDefs = []struct {
 	{"a", "s2", []portSpec{{"http", 80, "8080"}, {"metrics", 9090, "mport"}}},
 	{"b", "s1", []portSpec{{"http", 80, "8080"}}},
 	{"b", "s3", []portSpec{{"", 80, "8081"}}},
+	// used by sparse worlds only
+	{"a", "s4", []portSpec{{"http", 80, "8080"}}},
+	{"a", "s5", []portSpec{{"http", 80, "8080"}}},
+	{"b", "s4", []portSpec{{"http", 80, "8080"}}},
+	{"b", "s5", []portSpec{{"http", 80, "8080"}}},
 }
+
+const denseSvcs = 4
 
 func svcIndex(ns, name string) int {
 	for i, d := range svcDefs {
@@ -436,7 +465,10 @@ func (g *gen) nextCert() certPair {
 
 func (g *gen) svcNamesIn(ns string) []string {
 	var out []string
-	for _, d := range svcDefs {
+	for i, d := range svcDefs {
+		if i >= denseSvcs && !g.opt.Sparse {
+			break
+		}
 		if d.ns == ns {
 			out = append(out, d.name)
 		}
@@ -447,6 +479,9 @@ func (g *gen) svcNamesIn(ns string) []string {
 func (g *gen) genPath(ns string) pathSpec {
 	svcs := g.svcNamesIn(ns)
 	svc := pickStr(g, svcs)
+	if g.opt.Sparse && g.curPrefSvc != "" && !g.chance(1, 5) {
+		svc = g.curPrefSvc
+	}
 	if g.chance(1, 12) {
 		svc = "nosvc"
 	}
@@ -522,6 +557,15 @@ func (g *gen) classFor(ann map[string]string) *string {
 }
 
 func (g *gen) genIngress(ns, name string, created int, cur *networking.Ingress) *networking.Ingress {
+	g.curPrefSvc = ""
+	if g.opt.Sparse {
+		svcs := g.svcNamesIn(ns)
+		h := 0
+		for _, c := range name {
+			h += int(c)
+		}
+		g.curPrefSvc = svcs[h%len(svcs)]
+	}
 	var curAnn map[string]string
 	if cur != nil {
 		curAnn = cur.Annotations
@@ -530,8 +574,20 @@ func (g *gen) genIngress(ns, name string, created int, cur *networking.Ingress) 
 	class := g.classFor(ann)
 	nrules := 1 + g.pick(2)
 	var rules []ruleSpec
+	ownHost := ""
+	if g.opt.Sparse {
+		nrules = 1
+		for i, nn := range ingNames {
+			if nn[0] == ns && nn[1] == name {
+				ownHost = fmt.Sprintf("h%d.local", i+1)
+			}
+		}
+	}
 	for i := 0; i < nrules; i++ {
 		r := ruleSpec{Host: pickStr(g, g.opt.Hosts)}
+		if ownHost != "" && !g.chance(1, 8) {
+			r.Host = ownHost
+		}
 		np := 1 + g.pick(3)
 		for j := 0; j < np; j++ {
 			r.Paths = append(r.Paths, g.genPath(ns))
@@ -546,6 +602,9 @@ func (g *gen) genIngress(ns, name string, created int, cur *networking.Ingress) 
 			nh := 1 + g.pick(2)
 			for j := 0; j < nh; j++ {
 				h := pickStr(g, g.opt.Hosts)
+				if ownHost != "" && !g.chance(1, 8) {
+					h = ownHost
+				}
 				if h != "" {
 					t.Hosts = append(t.Hosts, h)
 				}
@@ -595,6 +654,9 @@ func GenerateRun(seed uint64, opt GenOptions) (*World, []Op) {
 	}
 	if g.opt.Hosts == nil {
 		g.opt.Hosts = defaultHosts
+		if g.opt.Sparse {
+			g.opt.Hosts = []string{"h1.local", "h2.local", "h3.local", "h4.local", "h5.local", "*.wild.local", ""}
+		}
 	}
 	if g.opt.Paths == nil {
 		g.opt.Paths = defaultPaths
@@ -634,6 +696,9 @@ func GenerateRun(seed uint64, opt GenOptions) (*World, []Op) {
 	g.world = &World{DNS: map[string][]string{"authhost.local": {"10.7.7.7"}, "ext.local": {"10.6.6.6", "10.6.6.7"}}}
 	// ---- initial world
 	for i := range svcDefs {
+		if i >= denseSvcs && !g.opt.Sparse {
+			break
+		}
 		if g.chance(5, 6) {
 			g.emit(g.genService(i), "")
 			ep, pods := g.genEndpoints(i, g.pick(4))
@@ -658,7 +723,7 @@ func GenerateRun(seed uint64, opt GenOptions) (*World, []Op) {
 	if g.chance(1, 2) {
 		g.emit(mkIngressClass("other", "example.com/other", ""), "")
 	}
-	g.emit(mkConfigMap(globalConfigMapName, g.genGlobal(nil, g.pick(4))), "")
+	g.emit(mkConfigMap(globalConfigMapName, g.genGlobal(g.opt.InitialGlobal, g.pick(4))), "")
 	ning := 1 + g.pick(g.opt.MaxIngresses)
 	for i := 0; i < ning; i++ {
 		nn := ingNames[g.pick(len(ingNames))]
@@ -790,6 +855,9 @@ func (g *gen) genOp(name string) {
 		}
 	case "svc_create":
 		i := g.pick(len(svcDefs))
+		if !g.opt.Sparse {
+			i = g.pick(denseSvcs)
+		}
 		key := svcDefs[i].ns + "/" + svcDefs[i].name
 		if g.objs[KService][key] != nil {
 			return
